@@ -611,6 +611,15 @@ func genStaleLock(cfg simkit.RunConfig, backend string) *Scenario {
 			}
 			w.Ops = append(w.Ops, Op{Kind: "set", Keys: []string{k}, Val: fmt.Sprintf("w%d.%s", id, k)})
 		}
+		if lateCommit && r.Intn(2) == 0 {
+			// the victim is still open: the same client that just met the stale locks also wants a key the victim holds
+			// a LIVE lock on - it has to wait for (or give up on) that lock, never take it
+			k := pick(r, wkeys)
+			if w.Pessimistic {
+				w.Ops = append(w.Ops, Op{Kind: "lock", Keys: []string{k}, WaitMs: 100 + r.Intn(1500)})
+			}
+			w.Ops = append(w.Ops, Op{Kind: "set", Keys: []string{k}, Val: fmt.Sprintf("w%d.%s", id, k)})
+		}
 		sc.Txns = append(sc.Txns, w)
 		id++
 		at += 300 + r.Intn(1500)
